@@ -844,6 +844,34 @@ fn gen_c24(rng: &mut Rng, thorough: bool) -> Hist {
         // every clock read cost virtual time so that such phases stay affordable
         cfg.clock_tick = 50_000;
         let d = cfg.deadline_ms;
+        // pattern: the strongest writer writes once and falls silent while a weaker one keeps
+        // writing the instance more often than the deadline period
+        let strong = (0..cfg.n_writers).max_by_key(|w| cfg.strengths[*w]).unwrap();
+        let weak = (0..cfg.n_writers).find(|w| cfg.strengths[*w] < cfg.strengths[strong]);
+        if let (true, Some(weak)) = (rng.chance(0.5), weak) {
+            let mut g = G::new(rng, cfg.n_writers, n_inst);
+            let k = g.key();
+            if g.rng.bool() {
+                let t = g.tick();
+                g.write_ts(weak, k, t);
+            }
+            let t = g.tick();
+            g.write_ts(strong, k, t);
+            let rounds = 7 + g.rng.below(4);
+            for _ in 0..rounds {
+                let ms = *g.rng.pick(&[d / 2, d / 2, d / 3, d - 30]);
+                g.ops.push(Op::Sleep { ms });
+                let t = g.tick();
+                g.write_ts(weak, k, t);
+            }
+            if g.rng.bool() {
+                let t = g.tick();
+                g.write_ts(strong, k, t);
+                let t = g.tick();
+                g.write_ts(weak, k, t);
+            }
+            return g.finish(cfg);
+        }
         let mut g = G::new(rng, cfg.n_writers, n_inst);
         while g.ops.len() < n {
             let r = g.rng.below(100);
